@@ -113,6 +113,10 @@ Judge(e) ==
     CASE e.ev = "Load"    -> TRUE
       [] e.ev = "Phase"   -> JudgePhase(e)
       [] e.ev = "Unphase" -> Check(e, "Returns", e.exc = "")
+      \* two outputs (one per tag) as the two contigs of ONE file - what per-chromosome runs with different --tag values leave
+      \* behind: each contig must decode exactly as it does alone (decoding has no state that crosses contigs)
+      [] e.ev = "Concat"  -> Check(e, "ContigsDecodeIndependently",
+                                   (e.a.exc = "" /\ e.b.exc = "") => (e.ab.exc = "" /\ e.ab.ph1 = e.a.ph /\ e.ab.ph2 = e.b.ph))
       [] e.ev = "Crashed" -> Fail(e, "Returns")
       [] OTHER            -> Fail(e, "UnknownEvent")
 
